@@ -18,7 +18,7 @@ RULE = ("pairs (prefix history by several clients, probe request): the probe is 
         "refused versions, undecodable frames) and then a read-only probe frame; the probe's answer (version, items, "
         "status / reason / message, length) must equal the answer a fresh KmipEngine + fresh session on a copy of the "
         "database give to the probe alone")
-PROFILE = {"groups": 0.15, "restart": 0.0, "revoke_date": 0.3}
+PROFILE = {"groups": 0.15, "restart": 0.0, "revoke_date": 0.3, "header_extras": 0.1}
 PLACEHOLDER_OPS = ["get", "getAttributes", "getAttributeList", "activate", "revoke", "destroy", "encrypt", "decrypt",
                    "sign", "signatureVerify", "mac", "setAttribute", "modifyAttribute", "deleteAttribute"]
 
